@@ -214,7 +214,7 @@ def annotate_file(src, fspec, relfile):
     repls = []
     obligations = []
     fn_props = {}
-    short = os.path.basename(relfile)
+    short = short_name(relfile)
 
     def ins(pos, text, order=0):
         edits.append((pos, order, text))
@@ -598,6 +598,15 @@ def _bytestr_to_array(text, wrap_from):
     return out
 
 
+def short_name(relfile):
+    """obligation-id prefix of a file: basename, qualified by the family for facade files (uri/.., iri/..) whose
+    basenames collide (uri/authority/host.rs vs iri/authority/host.rs)"""
+    r = relfile.split("crates/core/src/")[-1]
+    if r.startswith(("uri/", "iri/")) and os.path.basename(r) not in ("mod.rs", "reference.rs"):
+        return r.replace("/", ".")
+    return os.path.basename(r)
+
+
 def _module_path(relfile):
     p_ = relfile.split("crates/core/src/")[1][:-3]
     parts_ = p_.split("/")
@@ -656,9 +665,13 @@ def make_twin(text, toks, f, fs):
         r = "self_: S_"
     elif recv == ["mut", "self"]:
         r = "mut self_: S_"
+    elif "self" not in recv:
+        # associated function without receiver: parameters are kept as they are
+        r = None
+        rest = sub_tokens(ps, pe) if ps <= pe else ""
     else:
         raise AnchorLost("twin of %s: unsupported receiver %r" % (fs.path, recv))
-    params = r + (", " + rest if rest.strip() else "")
+    params = (r + (", " + rest if rest.strip() else "")) if r is not None else rest
     tail = text[toks[f.params_close].end:toks[f.params_close + 1].start] + sub_tokens(f.params_close + 1, f.body_close)
     unsafe = "unsafe " if any(toks[q].text == "unsafe" for q in range(f.item_start, f.fn_tok)) else ""
     # keep the item's attributes (loop_isolation, ...) except external_body
